@@ -12,6 +12,7 @@ fn main() {
     }
     match argv[1].as_str() {
         "codec" => shpverif::cmd_codec::run(&a),
+        "writer" => shpverif::cmd_writer::run(&a),
         c => {
             eprintln!("unknown command {}", c);
             std::process::exit(2);
